@@ -241,13 +241,23 @@ func runFwd(sc Scenario, tr *Trace, seed int64) {
 			DialContext: (&net.Dialer{Timeout: 2 * time.Second}).DialContext}
 		var evMu sync.Mutex
 		var events []any
-		sl := forward.NewStateListener(f, func(_ *url.URL, s int) {
+		// listener -> router -> forwarder: the router picks the backend by replacing the URL of the very request it was given
+		// (the usual oxy idiom); both notifications of an exchange must name the URL the request had when it reached the listener
+		entryURL := ""
+		router := http.HandlerFunc(func(w http.ResponseWriter, req *http.Request) {
+			req.URL = &url.URL{Scheme: "http", Host: backendAddr}
+			f.ServeHTTP(w, req)
+		})
+		sl := forward.NewStateListener(router, func(u *url.URL, s int) {
 			evMu.Lock()
+			name := "disconnected"
 			if s == forward.StateConnected {
-				events = append(events, "connected")
-			} else {
-				events = append(events, "disconnected")
+				name = "connected"
 			}
+			if u == nil || u.String() != entryURL {
+				name += "@" + fmt.Sprint(u)
+			}
+			events = append(events, name)
 			evMu.Unlock()
 		})
 		peer := peerForms[in["peer"].(string)]
@@ -256,7 +266,9 @@ func runFwd(sc Scenario, tr *Trace, seed int64) {
 		done := make(chan struct{}, 4)
 		front := httptest.NewUnstartedServer(http.HandlerFunc(func(w http.ResponseWriter, req *http.Request) {
 			defer func() { done <- struct{}{} }()
-			req.URL = &url.URL{Scheme: "http", Host: backendAddr}
+			evMu.Lock()
+			entryURL = req.URL.String()
+			evMu.Unlock()
 			req.RemoteAddr = peer[0]
 			if mode == "precancel" { // the request reaches the forwarder with a context that is already done (the client gave up
 				// while an earlier middleware held the request)
@@ -473,19 +485,29 @@ func runUpgradeStep(be *rawBackend, st M, tr *Trace) {
 		DialContext: (&net.Dialer{Timeout: 2 * time.Second}).DialContext}
 	var evMu sync.Mutex
 	var events []any
-	sl := forward.NewStateListener(f, func(_ *url.URL, s int) {
+	entryURL := ""
+	router := http.HandlerFunc(func(w http.ResponseWriter, req *http.Request) {
+		req.URL = &url.URL{Scheme: "http", Host: backendAddr}
+		f.ServeHTTP(w, req)
+	})
+	sl := forward.NewStateListener(router, func(u *url.URL, s int) {
 		evMu.Lock()
+		name := "disconnected"
 		if s == forward.StateConnected {
-			events = append(events, "connected")
-		} else {
-			events = append(events, "disconnected")
+			name = "connected"
 		}
+		if u == nil || u.String() != entryURL {
+			name += "@" + fmt.Sprint(u)
+		}
+		events = append(events, name)
 		evMu.Unlock()
 	})
 	done := make(chan struct{}, 4)
 	front := httptest.NewServer(http.HandlerFunc(func(w http.ResponseWriter, req *http.Request) {
 		defer func() { done <- struct{}{} }()
-		req.URL = &url.URL{Scheme: "http", Host: backendAddr}
+		evMu.Lock()
+		entryURL = req.URL.String()
+		evMu.Unlock()
 		sl.ServeHTTP(w, req)
 	}))
 	var reqb bytes.Buffer
